@@ -472,6 +472,11 @@ func (e *expression) Value(ctx *hcl.EvalContext) (cty.Value, hcl.Diagnostics) {
 				})
 				continue
 			}
+			// A key derived from a marked value can't itself carry the marks,
+			// so (as in the native syntax) we transfer them to the object
+			// as a whole.
+			name, nameMarks := name.Unmark()
+			marks = append(marks, nameMarks)
 			if !name.IsKnown() {
 				// This is a bit of a weird case, since our usual rules require
 				// us to tolerate unknowns and just represent the result as
@@ -484,11 +489,6 @@ func (e *expression) Value(ctx *hcl.EvalContext) (cty.Value, hcl.Diagnostics) {
 				known = false
 				continue
 			}
-			// A key derived from a marked value can't itself carry the marks,
-			// so (as in the native syntax) we transfer them to the object
-			// as a whole.
-			name, nameMarks := name.Unmark()
-			marks = append(marks, nameMarks)
 			nameStr := name.AsString()
 			if _, defined := attrs[nameStr]; defined {
 				diags = append(diags, &hcl.Diagnostic{
@@ -506,8 +506,9 @@ func (e *expression) Value(ctx *hcl.EvalContext) (cty.Value, hcl.Diagnostics) {
 		}
 		if !known {
 			// We encountered an unknown key somewhere along the way, so
-			// we can't know what our type will eventually be.
-			return cty.DynamicVal, diags
+			// we can't know what our type will eventually be. The keys still
+			// contributed their marks.
+			return cty.DynamicVal.WithMarks(marks...), diags
 		}
 		return cty.ObjectVal(attrs).WithMarks(marks...), diags
 	case *nullVal:
